@@ -28,6 +28,10 @@ func acquireDecoder() *Decoder {
 		dec.mbH = 0
 		dec.mbX = 0
 		dec.mbY = 0
+		// The left intra-mode context is otherwise only reset at the end of
+		// each decoded row; a decode that aborted mid-row would leak it into
+		// the next frame decoded with this pooled object.
+		dec.intraL = [4]uint8{}
 		dec.br = nil
 		for i := range dec.parts {
 			dec.parts[i] = nil
